@@ -113,7 +113,7 @@ def with_schedule(spec, sched, rng):
     if sched == 'run':
         spec['schedule'] = [run]
     elif sched == 'continue':
-        spec['schedule'] = [run, {'op': 'run', 'dt': GEN.Q('TimeInterval', 2e-5, 'sec'), 'T': GEN.Q('TimeInterval', 1e-4, 'sec')}]
+        spec['schedule'] = [run, {'op': 'export'}, {'op': 'run', 'dt': GEN.Q('TimeInterval', 2e-5, 'sec'), 'T': GEN.Q('TimeInterval', 1e-4, 'sec')}]
     elif sched == 'stop':
         spec['probe'] = False
         spec['stop'] = {'sensor': 'enc', 'elem': 0, 'op': 'ge', 'thr': GEN.Q('AngularPosition', 1e-4, 'rad')}
@@ -136,6 +136,9 @@ def judge_history(ctx, b, runs, case, label, nontrivial_key=None, judge_cells=Tr
             ctx.count('documented_run_errors')
             return 'documented-error'
         ctx.violation('C17:run-raised', {'exception': exc, 'config': label}, case)
+        return 'bad'
+    if getattr(b, 'mid_schedule_failures', None):
+        ctx.violation('C17:export-or-snapshot-raised-in-mid-schedule', {'failures': b.mid_schedule_failures[:3], 'config': label}, case)
         return 'bad'
     n = len(pt.time)
     ctx.count('instants', n)
@@ -227,6 +230,14 @@ def run_random(ctx, i):
     case = {'kind': 'random', 'index': i}
     spec = SC.general_scenario(rng, i, ctx.tier)
     spec['probe'] = spec.get('stop') is None
+    if i % 3 == 0:
+        # export / snapshot between the operations of the schedule
+        sc_ = []
+        for op_ in spec['schedule']:
+            sc_.append(op_)
+            if op_['op'] == 'run':
+                sc_.append({'op': 'export'})
+        spec['schedule'] = sc_
     ctx.count('random_chains')
     ctx.count('evaluations')
     try:
